@@ -56,6 +56,8 @@ pub struct ConcRun {
     pub switches: u64,
     pub faults: Vec<(String, u64)>,
     pub survivor_steps: u64,
+    pub fs0: kismet_vfs::simfs::SimFs,
+    pub main_spec: HandleSpec,
 }
 
 fn draw_op(t: &mut Tape, names: &[&'static str], tag: u32, is_stack: bool) -> Op {
@@ -184,7 +186,8 @@ pub fn run_conc(tape: &mut Tape, cfg: &ConcCfg, detail: bool) -> ConcRun {
         programs.push((0..n).map(|_| Step::Unlink).collect());
         part_proc.push(nparts);
     }
-    let nprocs = total_parts + 1;
+    let nprocs = total_parts + 2;
+    let fs0 = fs.clone();
     let readonly: Vec<usize> = Vec::new();
     let mut w = World::new(fs, &kn, tape, nprocs, total_parts, dirs.clone(), WorldCfg { readonly, check_confined: true, extra_writable: vec![] });
     w.chunk = *[8192usize, 1000, 100_000][w.draw(3) as usize..].first().unwrap();
@@ -340,7 +343,7 @@ pub fn run_conc(tape: &mut Tape, cfg: &ConcCfg, detail: bool) -> ConcRun {
     }
     let _ = detail;
     let adversary_unlinks = *adv_count.lock().unwrap();
-    ConcRun { results, trace, w, keys, hspecs, programs, part_proc, desc, blocked: !ok, aborted, frozen_at, crashed_proc, sig, adversary_unlinks, initial, steps, sim_ns, switches, faults, survivor_steps }
+    ConcRun { results, trace, w, keys, hspecs, programs, part_proc, desc, blocked: !ok, aborted, frozen_at, crashed_proc, sig, adversary_unlinks, initial, steps, sim_ns, switches, faults, survivor_steps, fs0, main_spec }
 }
 
 pub fn describe(run: &ConcRun, trace_lines: usize) -> Vec<String> {
